@@ -134,6 +134,16 @@ func ReadUint16Slice(r Reader, c []uint16) (n int64, err error) {
 
 	buffered := len(slice) >> 1
 
+	// Fewer bytes than one element can be peeked at once (end of a truncated stream, or a reader
+	// whose buffer is not a multiple of the element size): asks for exactly one element, which
+	// returns an error if it is not there, so that the recursion below always makes progress.
+	if buffered == 0 {
+		if slice, err = r.Peek(1 << 1); err != nil {
+			return int64(len(slice)), err
+		}
+		buffered = 1
+	}
+
 	// If the slice to write on is equal or smaller than the amount peaked
 	if N := len(c); N <= buffered {
 
@@ -153,7 +163,7 @@ func ReadUint16Slice(r Reader, c []uint16) (n int64, err error) {
 
 	// Discard what was peeked
 	var inc int
-	if inc, err = r.Discard(len(slice)); err != nil {
+	if inc, err = r.Discard(buffered << 1); err != nil {
 		return n + int64(inc), err
 	}
 
@@ -209,6 +219,16 @@ func ReadUint32Slice(r Reader, c []uint32) (n int64, err error) {
 
 	buffered := len(slice) >> 2
 
+	// Fewer bytes than one element can be peeked at once (end of a truncated stream, or a reader
+	// whose buffer is not a multiple of the element size): asks for exactly one element, which
+	// returns an error if it is not there, so that the recursion below always makes progress.
+	if buffered == 0 {
+		if slice, err = r.Peek(1 << 2); err != nil {
+			return int64(len(slice)), err
+		}
+		buffered = 1
+	}
+
 	// If the slice to write on is equal or smaller than the amount peaked
 	if N := len(c); N <= buffered {
 
@@ -228,7 +248,7 @@ func ReadUint32Slice(r Reader, c []uint32) (n int64, err error) {
 
 	// Discard what was peeked
 	var inc int
-	if inc, err = r.Discard(len(slice)); err != nil {
+	if inc, err = r.Discard(buffered << 2); err != nil {
 		return n + int64(inc), err
 	}
 
@@ -284,6 +304,16 @@ func ReadUint64Slice(r Reader, c []uint64) (n int64, err error) {
 
 	buffered := len(slice) >> 3
 
+	// Fewer bytes than one element can be peeked at once (end of a truncated stream, or a reader
+	// whose buffer is not a multiple of the element size): asks for exactly one element, which
+	// returns an error if it is not there, so that the recursion below always makes progress.
+	if buffered == 0 {
+		if slice, err = r.Peek(1 << 3); err != nil {
+			return int64(len(slice)), err
+		}
+		buffered = 1
+	}
+
 	// If the slice to write on is equal or smaller than the amount peaked
 	if N := len(c); N <= buffered {
 
@@ -303,7 +333,7 @@ func ReadUint64Slice(r Reader, c []uint64) (n int64, err error) {
 
 	// Discard what was peeked
 	var inc int
-	if inc, err = r.Discard(len(slice)); err != nil {
+	if inc, err = r.Discard(buffered << 3); err != nil {
 		return n + int64(inc), err
 	}
 
